@@ -256,3 +256,101 @@ func TestVerifC11Api(t *testing.T) {
 	}
 	vWriteOut(t, res)
 }
+
+// ---------------------------------------------------------------- multi-step lane
+// Sequences of external requests against ONE registrar, interleaved with the operator's subnet reload
+// (SIGHUP -> ReloadSubnets).  Every step runs under a timeout: a request that gets no status because the
+// handler is stuck on a lock, or a reload that never returns, is the observation "hang".
+
+type seqStep struct {
+	Kind string  `json:"kind"` // req | reload
+	Req  apiCase `json:"req"`
+}
+
+type seqCase struct {
+	Steps []seqStep `json:"steps"`
+}
+
+type seqObs struct {
+	Kind   string      `json:"kind"`
+	View   interface{} `json:"view"`
+	Sel    []selObs    `json:"sel"`
+	Out    string      `json:"out"` // ret | panic | hang
+	Detail string      `json:"detail"`
+	Code   int         `json:"code"`
+	Pub    int         `json:"pub"`
+	Err    string      `json:"err"`
+}
+
+func TestVerifC11ApiSeq(t *testing.T) {
+	var cases []seqCase
+	if !vReadCases(t, &cases) {
+		return
+	}
+	log.SetOutput(io.Discard)
+	golog.SetOutput(io.Discard)
+	t.Setenv("PHANTOM_SUBNET_LOCATION", "../../station/lib/test/phantom_subnets.toml")
+	sel, err := phantoms.SubnetsFromTomlFile("../../station/lib/test/phantom_subnets.toml")
+	if err != nil {
+		t.Fatal(err)
+	}
+	_, priv, _ := ed25519.GenerateKey(bytes.NewReader(bytes.Repeat([]byte{7}, 64)))
+	quiet := log.New()
+	quiet.SetOutput(io.Discard)
+	res := make([][]seqObs, len(cases))
+	for ci, sc := range cases {
+		rec := &pubRec{}
+		m := metrics.NewMetrics(log.NewEntry(quiet), time.Hour)
+		rp := regprocessor.VerifNewRegProcessor(sel, rec.send, m, true, priv, true, verifTransports)
+		s := &APIRegServer{processor: rp, logger: quiet, logClientIP: true, metrics: m}
+		out := make([]seqObs, len(sc.Steps))
+		for si, st := range sc.Steps {
+			o := seqObs{Kind: st.Kind}
+			if st.Kind == "reload" {
+				var rerr error
+				o.Out, o.Detail = vGuard(4*time.Second, func() { rerr = rp.ReloadSubnets() })
+				if rerr != nil {
+					o.Err = rerr.Error()
+				}
+				out[si] = o
+				continue
+			}
+			c := st.Req
+			body := vUnhex(c.Body)
+			o.View = vParse(body)
+			w := &pb.C2SWrapper{}
+			if proto.Unmarshal(body, w) == nil && w.RegistrationPayload != nil {
+				p := w.RegistrationPayload
+				for _, v6 := range []bool{false, true} {
+					o.Sel = append(o.Sel, selClass(sel, w.GetSharedSecret(), uint(p.GetClientLibVersion()), p.GetTransport(), p.GetDecoyListGeneration(), v6))
+				}
+			}
+			rec.mu.Lock()
+			rec.fail = c.ZmqFail
+			before := rec.n
+			rec.mu.Unlock()
+			path := "/register"
+			if c.Handler == "bidi" {
+				path = "/register-bidirectional"
+			}
+			r := httptest.NewRequest(c.Method, path, bytes.NewReader(body))
+			wr := httptest.NewRecorder()
+			o.Out, o.Detail = vGuard(4*time.Second, func() {
+				if c.Handler == "bidi" {
+					s.registerBidirectional(wr, r)
+				} else {
+					s.register(wr, r)
+				}
+			})
+			if o.Out == "ret" {
+				o.Code = wr.Code
+			}
+			rec.mu.Lock()
+			o.Pub = rec.n - before
+			rec.mu.Unlock()
+			out[si] = o
+		}
+		res[ci] = out
+	}
+	vWriteOut(t, res)
+}
